@@ -139,15 +139,261 @@ fn gen(rng: &mut Rng, n: usize, _tier: &str) -> Vec<String> {
     for _ in 0..(n / 12).max(40) {
         out.push(gen_workflow_actions(rng));
     }
+    // every max_cycles value with a configuration setter in front of (and between) the calls of the plain wrapper
+    for maxc in 0..=64usize {
+        let counter = vec![rule(0, 0, 1, ('L', 0, 1000), vec![('A', 0, 1)])];
+        let ops = match maxc % 4 {
+            0 => vec!["B0", "T"],
+            1 => vec!["T", "B1", "T"],
+            2 => vec!["B1", "B0", "C"],
+            _ => vec!["X10", "B0", "X10"],
+        };
+        out.push(show_case(&Case { maxc, facts: vec![Some(0), Some(0), Some(0)], rules: counter, ops: ops.into_iter().map(String::from).collect() }));
+    }
+    for _ in 0..(n / 12).max(60) {
+        out.push(gen_config_history(rng));
+    }
+    for _ in 0..(n / 10).max(60) {
+        out.push(gen_refocus(rng));
+    }
+    for _ in 0..(n / 12).max(60) {
+        out.push(gen_workflow_calls(rng));
+    }
     out
 }
 
+/// one of the three execute entry points: execute_with_callback, execute_at_time(t), the plain `execute` wrapper
 fn exec_op(rng: &mut Rng) -> String {
-    if rng.chance(1, 2) {
-        "C".to_string()
-    } else {
-        format!("X{}", rng.pick(&[10u64, 20, 30]))
+    match rng.below(8) {
+        0..=2 => "C".to_string(),
+        3..=5 => format!("X{}", rng.pick(&[10u64, 20, 30])),
+        _ => "T".to_string(),
     }
+}
+
+// ---------------------------------------------------------------------------------------------
+// configuration setters, wrappers and knowledge-base twins between execute calls on one engine
+
+/// The engine is built with a non-default max_cycles (0..=64, never 100) and timeout None; the rule set does not reach a
+/// fixpoint within max_cycles (or only in a later call). Between the executes: set_debug_mode(true / false), the other
+/// setters that must leave the bound alone (focus calls on MAIN, reset_no_loop_tracking), knowledge-base edits through
+/// knowledge_base_mut(), knowledge_base().clear() followed by re-adding. fields: f0 / f1 counters, f2 toggle.
+fn gen_config_history(rng: &mut Rng) -> String {
+    let maxc = match rng.below(8) {
+        0 => 0,
+        1 => 1,
+        2 => 64,
+        3 => 2,
+        _ => rng.range(0, 64) as usize,
+    };
+    let far = 1000i64;
+    let near = |rng: &mut Rng| -> i64 { (maxc as i64) + rng.range(1, 2 * maxc as u64 + 3) as i64 };
+    let mut rules: Vec<RuleSpec> = match rng.below(5) {
+        0 => vec![rule(0, 0, 1, ('L', 0, far), vec![('A', 0, 1)])],
+        1 => vec![rule(0, 0, 1, ('L', 0, near(rng)), vec![('A', 0, 1)])],
+        2 => vec![rule(0, 0, 1, ('E', 2, 0), vec![('S', 2, 1)]), rule(1, 0, 1, ('E', 2, 1), vec![('S', 2, 0), ('A', 1, 1)])],
+        3 => vec![rule(0, 7, 1, ('G', 0, -1), vec![('A', 0, 1)]), rule(1, 0, 3, ('L', 1, far), vec![('A', 1, 1)])],
+        _ => vec![rule(0, 0, 1, ('L', 0, near(rng)), vec![('A', 0, 1)]), rule(1, -5, 1, ('L', 1, far), vec![('A', 1, 2)])],
+    };
+    if rng.chance(1, 5) {
+        rules.push(rule(7, 3, 5, ('L', 0, far), vec![('A', 1, 1)])); // lock-on-active bystander
+    }
+    let setter = |rng: &mut Rng| -> String {
+        match rng.below(12) {
+            0..=2 => "B0".to_string(),
+            3 | 4 => "B1".to_string(),
+            5 => "Q1".to_string(),
+            6 => "Q0".to_string(),
+            7 => "N".to_string(),
+            8 => "F0".to_string(),
+            9 => "Z".to_string(),
+            10 => "P".to_string(),
+            _ => format!("S{}.0", rng.below(2)),
+        }
+    };
+    let mut ops: Vec<String> = Vec::new();
+    if rng.chance(1, 2) {
+        ops.push(exec_op(rng));
+    }
+    let rounds = rng.range(1, 3);
+    for _ in 0..rounds {
+        // at least one set_debug_mode per round, possibly among other setters
+        let k = rng.range(1, 3);
+        let at = rng.below(k);
+        for j in 0..k {
+            ops.push(if j == at { format!("{}{}", if rng.chance(3, 4) { 'B' } else { 'Q' }, rng.below(2)) } else { setter(rng) });
+        }
+        match rng.below(10) {
+            0 => {
+                // knowledge_base_mut() twin: add a second self-trigger, remove / disable / enable through the same path
+                ops.push(format!("MA{}", show_rule(&rule(20, *rng.pick(&[9i64, 0, -9]), 1, ('L', 1, far), vec![('A', 1, 1)]))));
+            }
+            1 => ops.push(format!("M{}{}", rng.pick(&['R', 'D', 'E']), rng.below(2))),
+            2 => {
+                // clear the rule list, then load a non-quiescing rule again (same or fresh name)
+                ops.push("K".to_string());
+                if rng.chance(3, 4) {
+                    let nm = *rng.pick(&[0u64, 1, 30]);
+                    let r = rule(nm, 0, *rng.pick(&[1u8, 1, 3]), ('L', 0, far), vec![('A', 0, 1)]);
+                    ops.push(format!("{}A{}", if rng.chance(1, 2) { "M" } else { "" }, show_rule(&r)));
+                }
+            }
+            _ => {}
+        }
+        ops.push(exec_op(rng));
+    }
+    show_case(&Case { maxc, facts: vec![Some(0), Some(0), Some(0)], rules, ops })
+}
+
+// ---------------------------------------------------------------------------------------------
+// re-activating an agenda group (also the one that already has the focus) between execute calls
+
+/// Lock-on-active rules with conditions that stay true, in group g (MAIN or a named group), possibly next to ordinary and
+/// no-loop rules. History: activate g (unless MAIN) — execute — RE-activate g in one of the public ways — execute — …
+/// Every set_agenda_focus / activate_agenda_group / execute_workflow_step on g is a new activation of g, whether or not g
+/// already has the focus: the lock-on-active rules are eligible again, so an execute that stops before the bound must have
+/// fired them. Ways: F g while g is active, W g, V g, F other + F g, P / Z + F g; or none (control: nothing may fire).
+/// fields: f0 free, f1 / f2 firing counters, f3 one-shot trigger.
+fn gen_refocus(rng: &mut Rng) -> String {
+    let maxc = *rng.pick(&[2usize, 2, 3, 3, 5, 8, 16, 64, 1]);
+    let g = *rng.pick(&[0u64, 0, 1, 1, 2]);
+    let other = if g == 1 { 2 } else { 1 };
+    let nl = rng.range(1, 3);
+    let mut rules = Vec::new();
+    for i in 0..nl {
+        let flags = *rng.pick(&[5u8, 5, 5, 7]);
+        let mut r = rule(i, *rng.pick(&[7i64, 0, 0, -5]), flags, *rng.pick(&[('L', 0, 50), ('G', 1, -1), ('E', 0, 0)]), vec![('A', 1 + i % 2, 1)]);
+        r.ag = if g == 0 { if rng.chance(1, 3) { Some(0) } else { None } } else { Some(g) };
+        if rng.chance(1, 10) {
+            r.actg = Some(0);
+        }
+        rules.push(r);
+    }
+    for j in 0..rng.below(3) {
+        let name = nl + j;
+        let sal = *rng.pick(&[9i64, 7, 0, -5, -9]);
+        let mut r = match rng.below(4) {
+            0 => rule(name, sal, 1, ('E', 3, 0), vec![('S', 3, 1)]),                    // one shot
+            1 => rule(name, sal, 3, ('L', 0, 50), vec![('A', 2, 1)]),                   // no-loop
+            2 => rule(name, sal, 5, ('L', 0, 50), vec![('A', 2, 1)]),                   // lock-on-active in another group
+            _ => rule(name, sal, 1, ('L', 2, rng.range(1, 3) as i64), vec![('A', 2, 1)]), // short counter
+        };
+        r.ag = match rng.below(3) {
+            0 => Some(other),
+            1 => if g == 0 { None } else { Some(g) },
+            _ => None,
+        };
+        rules.push(r);
+    }
+    let mut ops: Vec<String> = Vec::new();
+    let mut stepped = false;
+    if g != 0 {
+        match rng.below(6) {
+            0..=2 => ops.push(format!("F{}", g)),
+            3 => ops.push(format!("V{}", g)),
+            _ => {
+                ops.push(format!("W{}", g));
+                stepped = true;
+            }
+        }
+    }
+    if !stepped {
+        ops.push(exec_op(rng));
+    }
+    let rounds = rng.range(1, 3);
+    for _ in 0..rounds {
+        let mut stepped = false;
+        match rng.below(14) {
+            0..=4 => ops.push(format!("F{}", g)), // the group that already has the focus
+            5 | 6 => {
+                ops.push(format!("W{}", g));
+                stepped = true;
+            }
+            7 => ops.push(format!("V{}", g)),
+            8 => {
+                ops.push(format!("F{}", other));
+                if rng.chance(1, 2) {
+                    ops.push(exec_op(rng));
+                }
+                ops.push(format!("F{}", g));
+            }
+            9 => {
+                ops.push("P".to_string());
+                ops.push(format!("F{}", g));
+            }
+            10 => {
+                ops.push("Z".to_string());
+                ops.push(format!("F{}", g));
+            }
+            11 => {
+                ops.push(format!("F{}", g));
+                ops.push(format!("F{}", g));
+            }
+            12 => ops.push(format!("B{}", rng.below(2))), // not an activation
+            _ => {}                                        // control: no re-activation
+        }
+        if rng.chance(1, 8) {
+            ops.push("S3.0".to_string());
+        }
+        if !stepped {
+            ops.push(exec_op(rng));
+        }
+    }
+    show_case(&Case { maxc, facts: vec![Some(0), Some(0), Some(0), Some(0)], rules, ops })
+}
+
+// ---------------------------------------------------------------------------------------------
+// execute_workflow_step / execute_workflow next to the plain calls
+
+/// Rules spread over MAIN and groups 1..3 (counters, one-shots, lock-on-active, a rule that activates the next group),
+/// driven by execute_workflow([..]) and execute_workflow_step(g), mixed with set / pop / clear focus and the plain executes.
+/// Every step is `set_agenda_focus(g); execute`, so each obeys the bound and the early-stop clause like a direct call.
+fn gen_workflow_calls(rng: &mut Rng) -> String {
+    let maxc = *rng.pick(&[1usize, 2, 3, 3, 5, 8, 20]);
+    let ng = rng.range(2, 3);
+    let nr = rng.range(2, 6);
+    let mut rules = Vec::new();
+    for i in 0..nr {
+        let sal = *rng.pick(&[9i64, 7, 0, 0, -5]);
+        let f = rng.below(3);
+        let mut r = match rng.below(6) {
+            0 => rule(i, sal, 1, ('L', f, rng.range(1, 6) as i64), vec![('A', f, 1)]),
+            1 => rule(i, sal, 1, ('E', 3, 0), vec![('S', 3, 1)]),
+            2 => rule(i, sal, 5, ('L', 0, 50), vec![('A', f, 1)]),
+            3 => rule(i, sal, 3, ('L', 0, 50), vec![('A', f, 1), ('F', rng.below(ng + 1), 0)]),
+            4 => rule(i, sal, 1, ('G', f, -1), vec![('A', f, 1)]),           // never quiesces
+            _ => rule(i, sal, 1, ('E', 3, 9), vec![('S', 3, 0)]),            // never true
+        };
+        r.ag = if rng.chance(1, 5) { None } else { Some(rng.below(ng + 1)) };
+        if rng.chance(1, 10) {
+            r.actg = Some(0);
+        }
+        rules.push(r);
+    }
+    let grp = |rng: &mut Rng| rng.below(ng + 1);
+    let nops = rng.range(1, 4);
+    let mut ops: Vec<String> = Vec::new();
+    if rng.chance(1, 5) {
+        ops.push((*rng.pick(&["B1", "B1", "Q1", "B0"])).to_string());
+    }
+    for _ in 0..nops {
+        match rng.below(12) {
+            0..=3 => ops.push(format!("W{}", grp(rng))),
+            4..=6 => {
+                let k = rng.range(1, 4);
+                let gs: Vec<String> = (0..k).map(|_| grp(rng).to_string()).collect();
+                ops.push(format!("Y{}", gs.join(".")));
+            }
+            7 => ops.push(format!("F{}", grp(rng))),
+            8 => ops.push("P".to_string()),
+            9 => ops.push(if rng.chance(1, 2) { "Z".to_string() } else { format!("V{}", grp(rng)) }),
+            _ => ops.push(exec_op(rng)),
+        }
+    }
+    if !ops.last().map(|o| o.starts_with(['W', 'Y', 'X', 'C', 'T'])).unwrap_or(false) {
+        ops.push(exec_op(rng));
+    }
+    show_case(&Case { maxc, facts: vec![Some(0), Some(0), Some(0), Some(0)], rules, ops })
 }
 
 // ---------------------------------------------------------------------------------------------
